@@ -1,9 +1,13 @@
 (* Extract.v — extraction of the executable model to OCaml.
    Only ExtrOcamlBasic is used: bool/option/unit/list/prod/sumbool/sumor map to OCaml types,
    andb/orb are inlined; N, Z, positive, nat, string and ascii stay Coq inductives. *)
-From PyUbx Require Import Base Bytes Fletcher Frame Reader Socket.
+From PyUbx Require Import Base Bytes Fletcher Frame Reader Socket PyFloat Types Strs Walk Consts Tables Msg.
 Require Import ExtrOcamlBasic.
 Extraction "model.ml"
   fletcher fletcher_spec isvalid_checksum parse_front wellformedb mk_frame
   pyslice enc_le uint_of_le int_enc int_dec
-  file_read_all sock_run abs protocol flatten deliver.
+  file_read_all sock_run sock_abs protocol flatten deliver
+  parse construct serialize msg_length msg_identity repr_construct setattr_ delattr_ getinputmode
+  msgstr2bytes msgclass2bytes config_set config_del config_poll cfgname2key cfgkey2name_
+  v2b bytes2val nomval identity bits_of_b64 b64_of_bits nmea_hdr2
+  py_round_nd py_int_of_float py_round_int int_truediv fdiv fmul fadd f_of_Z.
